@@ -274,6 +274,26 @@ def _eof_idiom(cond, stmt_node, fn):
     return False
 
 
+def _seek_zero(cond, stmt_node, fn):
+    """`if off != 0: f.seek(off)` as the first thing done with a freshly opened handle: seeking to 0 there is a no-op"""
+    if not (isinstance(stmt_node, ast.Expr) and isinstance(stmt_node.value, ast.Call) and isinstance(stmt_node.value.func, ast.Attribute)
+            and stmt_node.value.func.attr == "seek" and len(stmt_node.value.args) == 1 and not stmt_node.value.keywords):
+        return False
+    arg = norm(stmt_node.value.args[0])
+    if cond not in (f"{arg} != 0", f"{arg} > 0", arg):
+        return False
+    h = norm(stmt_node.value.func.value)
+    from .model import parents
+    pm = parents(fn)
+    g = pm.get(stmt_node)
+    if not isinstance(g, ast.If):
+        return False
+    w = pm.get(g)
+    return isinstance(w, ast.With) and w.body and w.body[0] is g and any(
+        isinstance(i.optional_vars, ast.Name) and i.optional_vars.id == h and isinstance(i.context_expr, ast.Call)
+        and norm(i.context_expr.func) == "open" for i in w.items)
+
+
 def _root(t):
     while isinstance(t, (ast.Subscript, ast.Attribute)) and not (isinstance(t, ast.Attribute) and isinstance(t.value, ast.Name)
                                                                    and t.value.id == "self"):
@@ -285,6 +305,14 @@ def _handled_in_sibling(cond, stmt_node, fn):
     """the new condition selects between two branches that both store to the same object (a fast path next to the
     general code): the element is not skipped but handled elsewhere - which branch is right is for the formula /
     window rules of that code, not for this rule"""
+    if isinstance(stmt_node, ast.Expr) and isinstance(stmt_node.value, ast.Call) and isinstance(stmt_node.value.func, ast.Attribute):
+        # a call statement: the sibling branch calls the same method of the same receiver (bf.write(..) both ways)
+        fn_text = norm(stmt_node.value.func)
+        for g, side in _guard_nodes(cond, fn):
+            other = g.orelse if side == "body" else g.body
+            if any(isinstance(x, ast.Call) and norm(x.func) == fn_text for s in other for x in ast.walk(s)):
+                return True
+        return False
     if not isinstance(stmt_node, (ast.Assign, ast.AugAssign)):
         return False
     tg = stmt_node.targets[0] if isinstance(stmt_node, ast.Assign) else stmt_node.target
@@ -323,7 +351,8 @@ def rule_new_guard(ctx, prefix, fi):
                 new.append(c)
         if len(new) > len(rc):
             new = [c for c in new if not _emptiness_guard(c, node, fi.node) and not _implied(c, [x for x in conds if x != c])
-                   and not _eof_idiom(c, node, fi.node) and not _handled_in_sibling(c, node, fi.node)]
+                   and not _eof_idiom(c, node, fi.node) and not _handled_in_sibling(c, node, fi.node)
+                   and not _seek_zero(c, node, fi.node)]
             if len(new) > len(rc):
                 bad.append((node, text, new, rc))
     if not compared:
